@@ -124,6 +124,13 @@ class BaseEnv:
     def sos_fact(self, t):
         pass
 
+    def havoc_tensor(self, shape, dtype='float64'):
+        """floating tensor about whose entries nothing is assumed (index-level analyses)"""
+        from .scalar import HAVOC
+        a = np.empty(tuple(int(n) for n in shape), dtype=object)
+        a[...] = HAVOC
+        return st.Tensor(a, DT[dtype])
+
     def cconst(self, re, im):
         """complex constant with exact rational parts"""
         if getattr(self, 'scalar_mode', 'Z') == 'A':
